@@ -191,11 +191,13 @@ def run(ctx):
                     # an earlier ends_with test on s2 fires for every name the later test is meant for
                     if k2 == "ends_with" and suf.endswith(s2) and t2 != ty:
                         ok, why = False, "shadowed by the earlier suffix %r -> %s" % (s2, t2)
+                if ok and not suf.startswith("."):
+                    ok, why = False, "the suffix does not start with '.': the test matches the end of any file name, not an extension"
                 want = expected.get(suf.lower())
                 if ok and want is not None and ty not in want:
                     ok, why = False, "reviewed table expects %s" % want
                 if ok and want is None:
-                    ok, why = False, "extension missing from tables/mime_expected.json (review and add)"
+                    r3.note("extension %r -> %s is not in the reviewed table (accepted unreviewed)" % (suf, ty))
             else:
                 why = "does not return a constant"
             r3.instance({"suffix": suf, "type": ty, "test": kind}, ok)
